@@ -258,12 +258,33 @@ def r3_no_other_escape(rep, src, model):
             # used as receiver of a method / in % formatting: must not be None
             par = n._parent
             needs = isinstance(par, ast.Attribute) and par.value is n
+            # ... or bound to a local that is then used as text with no test of the local around the use: receiver of a method,
+            # subject of another regex, stored into the block being filled (where None would later be written out as "None")
+            if not needs and isinstance(par, ast.Assign) and len(par.targets) == 1 and isinstance(par.targets[0], ast.Name) and par.value is n:
+                loc = par.targets[0].id
+                for u in walk_no_nested(f.node):
+                    if not (isinstance(u, ast.Name) and u.id == loc and isinstance(u.ctx, ast.Load) and u.lineno >= par.lineno):
+                        continue
+                    up = u._parent
+                    as_text = (isinstance(up, ast.Attribute) and up.value is u and isinstance(getattr(up, '_parent', None), ast.Call)) \
+                        or (isinstance(up, ast.Call) and u in up.args and isinstance(up.func, ast.Attribute) and up.func.attr in ('match', 'search', 'fullmatch')) \
+                        or (isinstance(up, ast.Assign) and up.value is u and any(isinstance(t_, (ast.Subscript, ast.Attribute)) for t_ in up.targets))
+                    if not as_text:
+                        continue
+                    a_, tested = u, False
+                    while getattr(a_, '_parent', None) is not None and a_._parent is not f.node:
+                        a_ = a_._parent
+                        if isinstance(a_, (ast.If, ast.IfExp, ast.While)) and any(isinstance(x_, ast.Name) and x_.id == loc for x_ in ast.walk(a_.test)):
+                            tested = True
+                    if not tested:
+                        needs = True
             if needs:
                 markers = [('open', g), ('close', g)]
                 Rm = rx.regex_lang(r['pattern'], r['flags'], 'match', [g], markers, alpha)
                 wb = Rm.minus(rx.has_group(alpha, markers, g)).witness()
                 if wb is not None:
-                    rep.fail('C15.R3', f.site, what, 'group %d of %s does not participate for %r but a method is called on it: AttributeError' % (g, rname, wb),
+                    rep.fail('C15.R3', f.site, what, 'group %d of %s does not participate for %r but its value is used as text (a method is called on it, it is matched again or stored in the block): '
+                             'AttributeError / TypeError, or None written out as "None"' % (g, rname, wb),
                              where='%s:%d' % (f.module.relpath, n.lineno))
                     continue
             rep.ok('C15.R3', f.site, what, 'group exists%s' % (' and always participates' if needs else ''), nontrivial=needs)
